@@ -7,7 +7,7 @@
    scenario suite as the search for a concrete racy schedule). *)
 From Coq Require Import String List.
 Import ListNotations.
-From GM Require Import Race RaceProofs Policy NodePolicy Access PolicyProofs TableAccess.
+From GM Require Import Race RaceProofs ClassSem ClassRace Policy NodePolicy Access PolicyProofs TableAccess.
 
 (* (1) every execution that follows the ownership discipline — each location exclusively owned
    and handed over only along synchronisation edges, or published read-only along them, or
@@ -37,3 +37,15 @@ Theorem C15_stateful_methods_confined : forall r l,
   exists p, In p l /\ ("M:" ++ fst p)%string = r_kind r /\ roots_are r [snd p] = true /\ snd p <> "api"%string.
 Proof. exact stateful_methods_confined. Qed.
 Print Assumptions C15_stateful_methods_confined.
+
+(* (5) the classes of the policy read as rules for an execution — a field written only in the
+   initialisation phase (InitOnly), written only by its creator before the object is handed on and
+   reached by others only along edges after that (PreHandOver), touched by one goroutine only
+   (Confined), touched only with its mutex held (Locked), or passed from one owner to the next at
+   an edge (OwnerTransfer), initialisation-phase accesses by the constructing goroutine being
+   allowed for the confined and locked ones — exclude a data race: for every execution, of any
+   length, in which goroutines act only once started and mutexes are used as mutexes *)
+Theorem C15_class_conforming_executions_race_free : forall g0 cls tr,
+  conforming g0 cls tr = true -> ~ data_race tr.
+Proof. exact conforming_race_free. Qed.
+Print Assumptions C15_class_conforming_executions_race_free.
